@@ -10,7 +10,8 @@ from concurrent.futures import ProcessPoolExecutor
 HERE = os.path.dirname(os.path.dirname(os.path.abspath(__file__)))
 REPO = os.environ.get('NBDIME_REPO', '/repo')
 REPLAYS = os.path.join(HERE, 'replays')
-EVIDENCE = os.path.join(HERE, 'evidence')
+# runs against a scratch tree (tools/seed_matrix.py, tools/run_seed.sh) must not overwrite the evidence of /repo
+EVIDENCE = os.environ.get('VERIF_EVIDENCE_DIR') or os.path.join(HERE, 'evidence')
 
 
 class CheckerDefect(Exception):
